@@ -54,6 +54,7 @@ class Prop:
     # (examples per shard, shards) per tier
     budget = {'quick': (300, 4), 'thorough': (3000, 16)}
     max_samples = 6
+    shrink_lists = None   # {dict key: minimum length} of the lists the structural shrinker may delete from (None = any list)
     wall_cap = {'quick': 900, 'thorough': 6 * 3600}
     enum_procs = 16
 
@@ -181,8 +182,14 @@ def structural_shrink(prop, spec, clause, cap_s=30):
                 lst = _get(best, path)
             except (KeyError, IndexError, TypeError):
                 continue
+            minlen = 0
+            if prop.shrink_lists is not None:
+                key = path[-1] if path and isinstance(path[-1], str) else None
+                if key not in prop.shrink_lists:
+                    continue
+                minlen = prop.shrink_lists[key]
             i = len(lst) - 1
-            while i >= 0 and time.time() - t0 < cap_s:
+            while i >= 0 and len(lst) > minlen and time.time() - t0 < cap_s:
                 cand = copy.deepcopy(best)
                 try:
                     del _get(cand, path)[i]
